@@ -7,6 +7,7 @@ package main
 import (
 	"fmt"
 	"go/ast"
+	"go/token"
 	"sort"
 	"strings"
 )
@@ -23,6 +24,7 @@ func init() {
 			{"LAY-REWRITE", 43, ruleLayRewrite},
 			{"PAR-FORCLAUSE", 3, ruleParForClause},
 			{"HND-RANGEINT", 1, ruleHndRangeInt},
+			{"PAR-RETURNLINE", 1, ruleParReturnLine},
 		},
 	})
 }
@@ -827,4 +829,44 @@ func ruleHndRangeInt(c *Ctx, r *R) {
 	}
 	r.check(counting, "range over an integer", c.Pos(sc.Clause), "an integer operand gets a counting iterator",
 		"the RANGE handler treats every operand without an object as a nil container: `for i := range 3 { .. }` (and `for range n`) loads, runs and silently executes the body zero times")
+}
+
+// PAR-RETURNLINE: there is no semicolon insertion in this parser, but a `return` followed
+// by a line break is a bare return in Go (that is where Go inserts the semicolon). returnNud
+// therefore takes operands only when the next token is on the keyword's line; otherwise the
+// statement after a bare return is parsed as its operand and executed before returning.
+func ruleParReturnLine(c *Ctx, r *R) {
+	fd := c.Func("returnNud")
+	if fd == nil {
+		r.undecided("returnNud", "-", "not found")
+		return
+	}
+	firstParse := token.NoPos
+	for _, pc := range c.callsTo(fd.Body, "parser.doExpression", "parser.Expression") {
+		if !firstParse.IsValid() || pc.Pos() < firstParse {
+			firstParse = pc.Pos()
+		}
+	}
+	if !firstParse.IsValid() {
+		r.undecided("returnNud", c.Pos(fd), "no operand parse found")
+		return
+	}
+	ok := false
+	for _, st := range fd.Body.List {
+		ifs, isIf := st.(*ast.IfStmt)
+		if !isIf || ifs.Pos() > firstParse || !terminating(ifs.Body) {
+			continue
+		}
+		be, isBin := unparen(ifs.Cond).(*ast.BinaryExpr)
+		if !isBin || (be.Op != token.NEQ && be.Op != token.GTR && be.Op != token.LSS) {
+			continue
+		}
+		l, rr := nosp(c.Src(be.X)), nosp(c.Src(be.Y))
+		if strings.HasSuffix(l, ".Pos.Line") && strings.HasSuffix(rr, ".Pos.Line") && l != rr &&
+			(strings.Contains(l, "p.Token") || strings.Contains(rr, "p.Token")) {
+			ok = true
+		}
+	}
+	r.check(ok, "bare return ends at the line break", c.Pos(fd), "operands are taken only from the keyword's line",
+		"returnNud reads operands across a line break: `return⏎ note(\"x\")` in a function without results parses the next statement as the operand — the statement Go never reaches runs before the function returns (and RETURN 1 is emitted in a function with no results)")
 }
